@@ -36,6 +36,11 @@ CHECKS = {
             "13 ignore-list pairs x anonymisation off/on/switched on by API x 5 persistent-client kinds x ignore flags x ANY-refusal, each x 43 requests (name spellings, IPv4/IPv6/4-in-6 sources, with/without ClientID); after every request the memory buffer (API), the flushed file, the API over the file and /control/stats are inspected and cleared. Restart scenarios check that the API hides entries recorded earlier whose name/client is ignored now, including several ClientID clients behind one address.",
             "ignore-rule matching delegated to urlfilter; a 4-in-6 source is the same client as its IPv4 form; client-flag hiding is judged with anonymisation off (anonymised entries cannot be attributed).",
             "DESIGN.md §4 C08", "E1-stateless"),
+    "C11": ("exploration",
+            "exhaustive enumeration of request shapes against every pattern of the real mux built by the real registration code in the real start-up order, plus a go/ast inventory of all registrations",
+            "Both registration orders (boot: DHCP routes before the user list exists; install wizard), every pattern (79/83) x path spellings x 7 methods x content types x bodies (incl. chunked without length) x 6 credential kinds; without valid credentials the response is 403/redirect, the probe/handler did not run and config, sessions, users and work-dir files are byte-identical; with credentials wrong method => 405 and non-JSON body => 415; expired sessions are not revived. Static part: every Handle/HandleFunc/httpRegister call in the shipped packages is in the mux, wrapped, and public only if in the fixed public set.",
+            "handler-ran for in-home routes is inferred from the status code; initDNS/initContextClients are mirrored step by step by the hook (their callback arguments are covered statically).",
+            "DESIGN.md §4 C11", "E1-stateless"),
     "C13": ("exploration",
             "deviation-bounded exhaustive enumeration of documents (base x key path x shape, 0/1/2 deviations) x every split point, against outcome/idempotence/path-independence/loader oracles",
             "Golden inputs of every schema version plus minimal and raw documents; every key path present plus every string literal of later steps placed under root and top-level objects, replaced by 9 shapes (1 deviation in quick, pairs in thorough); list-duplication variants; each migrated in one run and through every split point; no panic, error=>unchanged, stamped, idempotent, split-independent, unrelated key kept, loader accepts valid inputs.",
@@ -56,6 +61,11 @@ CHECKS = {
             "Every combination of 6 protocols, 3 configured server names, strict on/off, ~95 generated client server names and, for DoH, 48 paths with the name taken from TLS state or Host header; safety (ClientID only from a well-formed source, lower-cased; plain/DNSCrypt never), failure on invalid labels, strict rejection and liveness of the well-formed shapes; pre-request hook turns errors into SERVFAIL.",
             "path.Clean and RFC 1123 label syntax are the reference; domain-part case differences and empty name under strict are accepted either way.",
             "DESIGN.md §4 C16", "E1-stateless"),
+    "C17": ("exploration",
+            "bounded exhaustive enumeration of (pattern list x location spelling x entry point) on the real handlers and refresh paths with canary files",
+            "11 pattern lists x 13 targets x dot-dot routes x <=1 (quick) / <=2 (thorough) spelling departures (segment insertions, percent-encoding, suffixes, relative and scheme prefixes) x 5 entry points (add, set-url, two-step set-url, forced refresh, periodic refresh with the URL already configured) x block/allow registry; canary content may show up (rules count, stored file, response body, probe verdict) only if the location is absolute and filepath.Match(p, filepath.Clean(loc)) holds for a configured pattern.",
+            "filepath.Clean/Match are the reference; symlink-free tree; only the 'only if' direction is demanded.",
+            "DESIGN.md §4 C17", "E1-stateless"),
     "C18": ("exploration",
             "bounded exhaustive enumeration of (zone table x transition-day minute x range x weekday mask) against a wall-clock reference",
             "Every distinct zone transition table on the host, every minute (and +-1ns) of the local days before/of/after every DST transition in the window, 9 day ranges x 15 weekday masks, compared with a wall-clock reference; all serialised start/end combinations of a 10x10 grid in JSON and YAML for accept/reject, round trip and agreement. Exhaustive within those bounds.",
